@@ -114,6 +114,27 @@ theorem C10_root_id (jd : JD) (objs : List (String × DObj)) (root : String)
   | none => simp [hr] at h
   | some o => exact ⟨o, rfl, by simpa [hr] using h.1⟩
 
+/-! ### signal handlers and signal emitters are checked separately, whatever their keys -/
+
+theorem scopes_handlers (st : DStep) : ∀ h, h ∈ st.handlers → h.2.data ∈ st.scopes := by
+  intro h hh
+  simp only [DStep.scopes, List.mem_cons, List.mem_append, List.mem_map]
+  exact Or.inr (Or.inl (Or.inr ⟨h, hh, rfl⟩))
+
+theorem scopes_emitters (st : DStep) : ∀ e, e ∈ st.emitters → e.2.data ∈ st.scopes := by
+  intro e he
+  simp only [DStep.scopes, List.mem_cons, List.mem_append, List.mem_map]
+  exact Or.inr (Or.inr ⟨e, he, rfl⟩)
+
+/-- every signal handler's and every signal emitter's data schema of an accepted plugin schema
+    passed the link check - also when a handler and an emitter carry the same key -/
+theorem C10_signals_checked (jd : JD) (p : DSchema) (h : linkCheckSchema jd p = true) :
+    ∀ st, st ∈ p → (∀ g, g ∈ st.2.handlers → linkCheck jd g.2.data = true) ∧
+      (∀ g, g ∈ st.2.emitters → linkCheck jd g.2.data = true) := by
+  intro st hst
+  have h1 := all_mem h hst
+  exact ⟨fun g hg => all_mem h1 (scopes_handlers st.2 g hg), fun g hg => all_mem h1 (scopes_emitters st.2 g hg)⟩
+
 /-! ### non-vacuity -/
 
 /-- a description as a plugin would send it (CBOR-decoded: `map[any]any`, `uint64`), with a
@@ -139,6 +160,18 @@ def c10Dangling : V :=
 
 example : (rebuild c10Ext 40 c10Dangling).isOk = true := by decide +kernel
 example : (unserializeScope c10Ext c10JD 40 c10Dangling).isErr = true := by decide +kernel
+
+/-- a handler and an emitter under the same key: a dangling reference in the HANDLER's data schema
+    makes the whole plugin schema unacceptable -/
+def c10SameKey (handlerRef : String) : DSchema :=
+  let okScope : DTy := .scope [("E", .mk "E" false [])] "E"
+  let hdata : DTy := .scope
+    [("Root", .mk "Root" false [("item", .mk (.ref handlerRef "" none) none false [] [] [] none [] false none)]),
+     ("Item", .mk "Item" false [])] "Root"
+  [("s", ⟨"s", okScope, [("ok", ⟨okScope, none, false⟩)], [("sig", ⟨"sig", hdata, none⟩)], [("sig", ⟨"sig", okScope, none⟩)], none⟩)]
+
+example : linkCheckSchema (fun _ => none) (c10SameKey "Item") = true := by decide +kernel
+example : linkCheckSchema (fun _ => none) (c10SameKey "Nope") = false := by decide +kernel
 
 /-! ### the link check looks at ALL objects of a scope, not only at what the root reaches -/
 
@@ -252,3 +285,4 @@ end Arca
 #print axioms Arca.C10_usable_schema
 #print axioms Arca.C10_root_id
 #print axioms Arca.C10_all_objects
+#print axioms Arca.C10_signals_checked
